@@ -118,6 +118,7 @@ def generate(tier, rng):
         ic = rng.random() < 0.4
         c = mkcase(rng, t, sep, ic, rng.random() < 0.7)
         c.pop("lacks", None)
+        c["reuse"] = rng.random() < 0.3
         labs = gen.tree_labels(t)
         ascii_only = all(ord(ch) < 128 for _, v in c["names"] for ch in v)
         for _ in range(12):
@@ -134,6 +135,8 @@ def generate(tier, rng):
 
 
 def judge(case, impl, drv):
+    if isinstance(impl, dict) and impl.get("skip"):
+        return True, True
     if not isinstance(impl, list):
         return False, False
     p_ok = c_ok = True
